@@ -1033,3 +1033,140 @@ class EatHeaders(Contract):
 
 
 CONTRACTS.append(EatHeaders())
+
+
+# ------------------------------------------------------------------------------------------- BodyMarkuper._eat_data (soundness half)
+class EatData(Contract):
+    """the block-wise delimiter search, SOUNDNESS half: whatever it reports is true of the stream.
+
+    Ghost: `prev` = the bytes of the current section delivered in earlier chunks; W = prev ++ chunk.  State on entry: trest is None,
+    or it is the part of the delimiter T still expected, T[m:], and prev ends with T[:m] (0 < m < len T; then base == 0).
+      * a returned position e (relative to the chunk, possibly negative) is a real occurrence: W[len(prev)+e : +len T] == T,
+        and the expectation is cleared;
+      * on None the expectation left behind is again sound: trest' is None or T[m':] with W ending in T[:m'], and
+        trest_len' == len(trest');
+      * the loop advances by whole delimiter lengths and terminates.
+    NOT proved here (bounded check only): completeness - that no occurrence is overlooked and that the reported one is the first;
+    it rests on the delimiter's first byte (CR) not recurring in it and on the completeness half of match_tail's contract."""
+    props = ('C06', 'C07', 'C12')
+    file = 'ombott/request_pkg/multipart.py'
+    qualname = 'BodyMarkuper._eat_data'
+    assumptions = ('callee contract of MatchTail.match_tail as proved (soundness part used here): None, or i with 1 <= i <= end-start and '
+                   's[end-i:end] == token[:i]', 'object invariant: self.tlen == len(self.token) >= 3; trest_len == len(trest) when trest is set',
+                   'completeness of the search (no delimiter overlooked, first occurrence) is NOT part of this contract: bounded only')
+    expected_labels = ('found.reported_position_is_an_occurrence_of_the_delimiter', 'found.expectation_cleared',
+                       'none.expectation_left_behind_is_sound', 'loop0.inv_preserved.pending_expectation_is_sound',
+                       'loop0.variant_decreases')
+
+    def pre(self, X):
+        self.prev = X.fresh(BytesSort, 'prev')
+        self.chunk = X.fresh(BytesSort, 'chunk')
+        self.T = X.fresh(BytesSort, 'token')
+        T = self.T
+        X.assume(L(T) >= 3)
+        self.base = X.fresh(z3.IntSort(), 'base')
+        X.assume(z3.And(self.base >= 0, self.base <= L(self.chunk)))
+        self.pending0 = X.choose(2, 'expectation pending on entry?') == 1
+        if self.pending0:
+            tr = X.fresh(BytesSort, 'trest')
+            X.assume(self.sound(tr, self.prev))
+            X.assume(self.base == 0)
+            trest, trl = VBytes(tr), VInt(L(tr))
+        else:
+            trest, trl = NONE, NONE
+        self.W = z3.Concat(self.prev, self.chunk)
+        c = self
+
+        def match_tail(X, args, kwargs):
+            s, st, en = args[-3], args[-2], args[-1]
+            if X.choose(2, 'match_tail: None | i') == 0:
+                return NONE
+            i = X.fresh(z3.IntSort(), 'matched_len')
+            X.assume(z3.And(i >= 1, i <= en.t - st.t, i <= L(T), z3.SubSeq(s.t, en.t - i, i) == z3.SubSeq(T, 0, i)))
+            return VInt(i)
+        self.me = VObj('BM', {'token': VBytes(T), 'tlen': VInt(L(T)), 'trest': trest, 'trest_len': trl,
+                              'mt': VObj('Mt', {})})
+        self.stubs = {'Mt.match_tail': match_tail}
+        return {'self': self.me, 'chunk': VBytes(self.chunk), 'base': VInt(self.base)}
+
+    def sound(self, tr, upto):
+        """tr == T[m:] with 0 < m < len T and `upto` ends with T[:m]"""
+        T = self.T
+        m = L(T) - L(tr)
+        return z3.And(L(tr) >= 1, L(tr) < L(T), tr == z3.SubSeq(T, m, L(tr)), z3.SuffixOf(z3.SubSeq(T, 0, m), upto))
+
+    def _pending_ok(self, X, trest, trl, upto):
+        if isinstance(trest, VNone):
+            return z3.BoolVal(isinstance(trl, VNone))
+        if isinstance(trest, VBytes) and isinstance(trl, VInt):
+            return z3.And(self.sound(trest.t, upto), trl.t == L(trest.t))
+        return z3.BoolVal(False)
+
+    def _inv(self, X):
+        start = X.env['start'].t
+        upto = z3.SubSeq(self.W, 0, L(self.prev) + start)
+        return [('start_in_range', z3.And(start >= self.base, start <= L(self.chunk) + L(self.T))),
+                ('pending_expectation_is_sound', self._pending_ok(X, X.env['trest'], X.env['trest_len'], upto)),
+                ('no_partial_block_yet', z3.BoolVal(isinstance(X.env.get('part'), VNone)))]
+
+    def havoc_override(self, X, k, name):
+        if name in ('trest', 'trest_len'):
+            # None or a value: both shapes are explored
+            if name == 'trest':
+                self._shape = X.choose(2, 'local expectation at the loop head: None | set')
+                return NONE if self._shape == 0 else X.fresh_bytes('trest')
+            return NONE if self._shape == 0 else X.fresh_int('trest_len')
+        if name == 'part':
+            return NONE
+        return None
+
+    @property
+    def loop_inv(self):
+        return {0: self._inv}
+
+    @property
+    def loop_variant(self):
+        return {0: lambda X: L(self.chunk) + L(self.T) - X.env['start'].t}
+
+    def loop_head(self, X, k):
+        self._cand = [X.env.get('trest_len')]
+
+    def after_loop(self, X, k, how):
+        self._cand = getattr(self, '_cand', []) + [X.env.get('trest_len')]
+
+    def post(self, X, ret):
+        me = self.me.fields
+        if isinstance(ret, VInt):
+            # valid facts of sequence theory, stated to help the solver: a window is the concatenation of its two parts, and a part
+            # of W that lies inside the chunk is that part of the chunk
+            W, T, pl = self.W, self.T, L(self.prev)
+            p = pl + ret.t
+            def cut(name, fact):
+                # prove the sequence-theory fact on its own (no other hypotheses needed), then use it
+                X.driver.add_obligation(Obligation('lemma.' + name, [z3.And(L(T) >= 3)], fact, 'prove', X.where, list(X.taken)))
+                X.assume(fact)
+            for tl in getattr(self, '_cand', []):
+                if isinstance(tl, VInt):
+                    m = L(T) - tl.t
+                    cut('window_is_concatenation_of_its_parts',
+                        z3.Implies(z3.And(m >= 0, m <= L(T), p >= 0, p + L(T) <= L(W)),
+                                   z3.SubSeq(W, p, L(T)) == z3.Concat(z3.SubSeq(W, p, m), z3.SubSeq(W, p + m, L(T) - m))))
+                    cut('part_inside_the_chunk',
+                        z3.Implies(z3.And(m >= 0, m <= L(T), p + m >= pl, p + L(T) <= L(W)),
+                                   z3.SubSeq(W, p + m, L(T) - m) == z3.SubSeq(self.chunk, p + m - pl, L(T) - m)))
+                    cut('part_of_a_prefix',
+                        z3.Implies(z3.And(m >= 0, p >= 0, p + m <= L(W)),
+                                   z3.SubSeq(W, p, m) == z3.SubSeq(z3.SubSeq(W, 0, p + m), p, m)))
+            cut('window_inside_the_chunk',
+                z3.Implies(z3.And(p >= pl, p + L(T) <= L(W)), z3.SubSeq(W, p, L(T)) == z3.SubSeq(self.chunk, p - pl, L(T))))
+            X.prove('found.reported_position_is_an_occurrence_of_the_delimiter',
+                    z3.And(L(self.prev) + ret.t >= 0, z3.SubSeq(self.W, L(self.prev) + ret.t, L(self.T)) == self.T))
+            X.prove('found.expectation_cleared', z3.BoolVal(isinstance(me['trest'], VNone) and isinstance(me['trest_len'], VNone)))
+        else:
+            X.prove('none.expectation_left_behind_is_sound', self._pending_ok(X, me['trest'], me['trest_len'], self.W))
+
+    def post_raise(self, X, exc):
+        X.prove('raises.nothing', z3.BoolVal(exc.pyclass is AssertionError and False))
+
+
+CONTRACTS.append(EatData())
